@@ -201,6 +201,144 @@ class Resp(Base):
 
 
 @register
+class SuspReal(Base):
+    """A real SuspendBoolHigh(sig, sleep=S) installed on the engine; trip / release come as sig.put(1) / sig.put(0)."""
+
+    id = "suspreal"
+
+    def devices(self, ctx):
+        m = FakeMotor(ctx, "m", is_async=self.a, move=("delay", 1.0))
+        return {
+            "sig": FakeSignal(ctx, "sig", initial=self.params.get("initial", 0)),
+            "m": m,
+            "det": FakeDet(ctx, "det", is_async=self.a, motors=[m], stageable=False),
+        }
+
+    def configure(self, RE, d):
+        from bluesky.suspenders import SuspendBoolHigh
+        from bluesky.utils import Msg
+
+        pp = self.params.get("plans", 1)
+        self.sus = SuspendBoolHigh(
+            d["sig"],
+            sleep=self.params.get("sleep", 2),
+            pre_plan=[Msg("null", None, "PRE")] if pp else None,
+            post_plan=[Msg("null", None, "POST")] if pp else None,
+        )
+        self.RE = RE
+        self.log = []  # ('install'|'remove'|'put', value, exception type name or None)
+        pre = self.params.get("pre")
+        if pre is None:
+            if self.params.get("install", 1):
+                RE.install_suspender(self.sus)
+        else:
+            for op in pre:  # history before the call: I install, R remove, T trip (put 1), O ok (put 0)
+                self.do_op(op, d)
+
+    def do_op(self, op, d):
+        try:
+            if op == "I":
+                self.RE.install_suspender(self.sus)
+            elif op == "R":
+                self.RE.remove_suspender(self.sus)
+            elif op == "X":
+                self.sus.remove()  # the suspender's own remove(), as RE.remove_suspender calls it; twice is "again"
+            elif op == "T":
+                d["sig"].put(1)
+            elif op == "O":
+                d["sig"].put(0)
+            self.log.append((op, None))
+        except Exception as e:  # noqa: BLE001 - "removing it again is harmless": anything raised is the observation
+            self.log.append((op, type(e).__name__))
+
+    def custom_event(self, sess, ev):
+        before = len(self.log)
+        self.do_op(ev[1], sess.d)
+        sess.timeline.append(("op", ev[1], self.log[before][1] if len(self.log) > before else None))
+
+    def env_default(self, sess):
+        if sess.d["sig"].get():
+            sess.timeline.append(("env_release",))
+            sess.d["sig"].put(0)
+            return True
+        return False
+
+    def plan(self, d):
+        import bluesky.plan_stubs as bps
+
+        def plan():
+            yield from bps.open_run()
+            for i in range(2):
+                yield from bps.checkpoint()
+                yield from bps.mv(d["m"], float(i + 1))
+                yield from bps.trigger_and_read([d["det"]])
+            yield from bps.close_run()
+
+        return plan()
+
+
+def interleavings(n=4):
+    """All merges of two n-unit sequences that keep each sequence's order: tuples over {0,1} with n zeros and n ones."""
+    import itertools
+
+    out = []
+    for ones in itertools.combinations(range(2 * n), n):
+        out.append(tuple(1 if i in ones else 0 for i in range(2 * n)))
+    return out
+
+
+@register
+class Keys(Base):
+    """Two runs under run keys k1/k2 (or None for the first when nokey=1), bodies interleaved as params['il'] says.
+
+    unit sequence per run: open_run, checkpoint+bundle, checkpoint+bundle, close_run.  params['dup'] = j inserts, before
+    unit j of the merged sequence, an open_run for a key that is open at that moment (if any).
+    """
+
+    id = "keys"
+
+    def devices(self, ctx):
+        return {
+            "d1": FakeDet(ctx, "d1", is_async=self.a, offset=100.0, stageable=False),
+            "d2": FakeDet(ctx, "d2", is_async=self.a, offset=200.0, stageable=False),
+        }
+
+    def plan(self, d):
+        from bluesky.utils import Msg
+
+        il = interleavings()[self.params.get("il", 0)]
+        dup = self.params.get("dup")
+        keys = [None if self.params.get("nokey") else "k1", "k2"]
+        dets = [d["d1"], d["d2"]]
+
+        def unit(r, u):
+            k, det = keys[r], dets[r]
+            if u == 0:
+                yield Msg("open_run", None, run=k, key=str(k))
+            elif u == 3:
+                yield Msg("close_run", None, run=k)
+            else:
+                yield Msg("checkpoint")
+                yield Msg("trigger", det, group=f"t{r}")
+                yield Msg("wait", None, group=f"t{r}")
+                yield Msg("create", None, name="primary", run=k)
+                yield Msg("read", det, run=k)
+                yield Msg("save", None, run=k)
+
+        def plan():
+            nxt = [0, 0]
+            for j, r in enumerate(il):
+                if dup is not None and dup == j:
+                    open_keys = [keys[x] for x in (0, 1) if 0 < nxt[x] < 4]
+                    if open_keys:
+                        yield Msg("open_run", None, run=open_keys[0], key="DUP")
+                yield from unit(r, nxt[r])
+                nxt[r] += 1
+
+        return plan()
+
+
+@register
 class FlyOnly(Base):
     """bp.fly: kickoff / complete / collect without step readings."""
 
